@@ -629,13 +629,13 @@ def real_coarsegrain(c):
 def run(ctx):
     rng = ctx.rng
     from strengths.coarsegrain import check_index_map_validity, grid_to_graph
-    ctx.notes.append("proved for all inputs: valid_iff (environments != -2), cg_volume(_SI), cg_group_amount, cg_species_total, cg_env, "
-                     "cg_chem_any (flags >= 0), cg_edge_iff, cg_surface, cg_distance + cg_centroid, cg_no_loops_no_dups, fine edges = shared "
-                     "faces, uncg_even / uncg_dropped_zero / uncg_group_total, generated subscripts / tests / statement inventory.  NOT proved "
-                     "for all inputs: identity_map (coarsegrain id = gridToGraph as ordered edge lists) - kernel-evaluated on a concrete "
-                     "instance, and decided on every generated identity case by the correspondence + oracle and on the real engines")
-    n_valid = ctx.n(170, 8000)
-    n_invalid = ctx.n(60, 2500)
+    ctx.notes.append("proved for all inputs (Props/C16.lean): valid_iff (environments != -2), cg_volume(_SI), cg_group_amount, cg_species_total, "
+                     "cg_env, cg_chem_any (flags >= 0), cg_edge_iff, cg_surface, cg_distance + cg_centroid, cg_no_loops_no_dups, "
+                     "fine_edges_are_shared_faces, uncg_even / uncg_dropped_zero / uncg_group_total, identity_map, identity_state, generated "
+                     "subscripts / tests / statement inventory.  'simulating with the identity map reproduces the plain simulation' rests on "
+                     "identity_map + C15 (grid = its graph) on the theorem side and is run on the three rebuilt engines here")
+    n_valid = ctx.n(420, 8000)
+    n_invalid = ctx.n(150, 2500)
     cases = [gen_case(rng) for _ in range(n_valid)] + [gen_case(rng, invalid=True) for _ in range(n_invalid)] + \
             [gen_case(rng, periodic=True) for _ in range(ctx.n(6, 100))]
     # the seeded / documented example: dropping cells of two environments
@@ -719,7 +719,7 @@ def run(ctx):
             break
     # ---- identity map and cgmap structure on the real engines, in a child process (a coarse system produced by a defective
     #      tree can make the native engine hang or crash; that must not take the check down)
-    engine_runs_in_child(ctx, rng.randint(0, 10 ** 9), ctx.n(6, 60), ctx.n(5, 60), ctx.n(45, 900))
+    engine_runs_in_child(ctx, rng.randint(0, 10 ** 9), ctx.n(12, 60), ctx.n(8, 60), ctx.n(45, 900))
 
 
 class _Rec:
